@@ -265,11 +265,13 @@ where
         rep: WorkerReport,
         seen: HashSet<u64>,
         stopped: bool,
+        first_fail: Option<(Value, Failure)>,
     }
     let st = RefCell::new(St {
         rep,
         seen: HashSet::new(),
         stopped: false,
+        first_fail: None,
     });
 
     let result = runner.run(&strategy, |case| {
@@ -302,6 +304,9 @@ where
             }
         }
         if let Some(f) = unknown.first() {
+            if st.first_fail.is_none() {
+                st.first_fail = Some((serde_json::to_value(&case).unwrap_or(Value::Null), (*f).clone()));
+            }
             st.stopped = true;
             return Err(TestCaseError::fail(f.signature.clone()));
         }
@@ -313,22 +318,35 @@ where
     match result {
         Ok(()) => {}
         Err(TestError::Fail(_, case)) => {
-            // re-run the minimal case for its final signature and detail
-            let out = check(&case);
-            let f = out
-                .fails
-                .iter()
-                .find(|f| !ctx.known.contains(&f.signature))
-                .cloned()
-                .unwrap_or(Failure {
+            // re-run the minimal case for its final signature and detail; the code under test has its own
+            // unseedable randomness, so retry, and fall back to the first failing case as it was observed
+            let mut found: Option<Failure> = None;
+            for _ in 0..20 {
+                let out = check(&case);
+                found = out.fails.iter().find(|f| !ctx.known.contains(&f.signature)).cloned();
+                if found.is_some() {
+                    break;
+                }
+            }
+            st.rep.failure = Some(match (found, st.first_fail.take()) {
+                (Some(f), _) => FailRec {
+                    sub: sub.to_string(),
+                    signature: f.signature,
+                    detail: f.detail,
+                    case: serde_json::to_value(&case).unwrap_or(Value::Null),
+                },
+                (None, Some((case0, f))) => FailRec {
+                    sub: sub.to_string(),
+                    signature: f.signature,
+                    detail: format!("(unshrunk: the shrunk case did not fail again in 20 runs) {}", f.detail),
+                    case: case0,
+                },
+                (None, None) => FailRec {
+                    sub: sub.to_string(),
                     signature: "unstable".into(),
                     detail: "shrunk case did not fail again when re-run".into(),
-                });
-            st.rep.failure = Some(FailRec {
-                sub: sub.to_string(),
-                signature: f.signature,
-                detail: f.detail,
-                case: serde_json::to_value(&case).unwrap_or(Value::Null),
+                    case: serde_json::to_value(&case).unwrap_or(Value::Null),
+                },
             });
         }
         Err(TestError::Abort(reason)) => {
